@@ -482,6 +482,18 @@ func (e *emitter) slack() string {
 }
 
 // acceptParams draws the 23 accept tokens; qosLen < 0 draws a length, wantV4 forces an IPv4 PDU address.
+// macLike: a message authentication code; one in four starts with octets that look like NAS header fields (a message
+// type and payload container type, an extended protocol discriminator, a security header) — the security header is
+// skipped by position, never recognised by content
+func (e *emitter) macLike() []byte {
+	m := e.bytes(4)
+	if e.rng.Intn(4) == 0 {
+		pre := [][]byte{{0x68, 0x01}, {0x7e, 0x00}, {0x7e, 0x02}, {0x2e, 0x01}, {0x00, 0x68}, {0x67, 0x01}, {0x00, 0x00}, {0xff, 0xff}}[e.rng.Intn(8)]
+		copy(m, pre)
+	}
+	return m
+}
+
 func (e *emitter) acceptParams(qosLen int, wantV4 bool) []string {
 	r := e.rng
 	if qosLen < 0 {
@@ -523,7 +535,7 @@ func (e *emitter) acceptParams(qosLen int, wantV4 bool) []string {
 		hx(e.bytes(qosLen)), hx(e.bytes(6)),
 		e.optByteTok(0.4), addr, e.optByteTok(0.3), snssai, ao,
 		e.optHexTok(0.2, big), e.optHexTok(0.2, big), e.optHexTok(0.4, big), e.optHexTok(0.4, big), e.optHexTok(0.5, 30),
-		u(uint64(r.Intn(5))), hx(e.bytes(4)), u(uint64(r.Intn(256))), u(uint64(1 + r.Intn(8))),
+		u(uint64(r.Intn(5))), hx(e.macLike()), u(uint64(r.Intn(256))), u(uint64(1 + r.Intn(8))),
 		e.optByteTok(0.7), e.optHexTok(0.2, 10), e.optByteTok(0.2), e.optByteTok(0.2),
 	}
 }
@@ -612,6 +624,8 @@ func extractDomain(e *emitter) {
 		}
 		e.op("establish", rpp, np, hx(buildAccept(ap)), hx(buildTransfer(tp)))
 	}
+	// 3a. the selection of the setup list in whatever PDU arrives (findlist.go)
+	findListCases(e)
 	// 3b. the optional-IE walk at the END of the container: for every IEI of the length table (and two that are not in
 	// it), the container stops right after the IEI, inside its length indicator, or its length claims more than is left;
 	// alone and behind a well-formed IE / a half-octet IE (termination and panic classes on every branch of the walk)
